@@ -11,6 +11,7 @@ open BeffVerif.C08
 #print axioms spec_readonly
 #print axioms anyOf_order_irrelevant
 #print axioms named_intersection_member_not_merged
+#print axioms shared_key_merge_is_syntactic
 #print axioms mem_congr
 #print axioms find_perm
 #print axioms spec_decls_perm
